@@ -9,6 +9,7 @@ from . import common
 
 ID = 'C08'
 LEVEL = 'fault_enumeration'
+RUN_LIMIT_S = 240     # wall guard per evaluation (harness error, never a verdict); a loaded machine must not trip it
 RUNS = {'quick': 192, 'thorough': 0}
 BUDGET_S = {'thorough': 600}
 RULE = ('one evaluation = one execution of the real tool (main.main) over a simulated stream: the full '
@@ -229,18 +230,40 @@ def execute(sc):
         nl = [i for i, b in enumerate(data) if b == 10]
         if sc.get('cuts') is not None:
             cuts = list(sc['cuts'])
-        elif cfg['all_cuts']:
+        elif cfg['all_cuts'] and len(data) <= 3000:
             cuts = list(range(0, len(data) + 1))
+        elif cfg['all_cuts']:
+            # a stream with very long lines: every byte position would be tens of thousands of full runs, so here the cuts are
+            # every line boundary +-1, every multiple of the usual buffer sizes +-1, and 512 seeded positions
+            marks = [m_ * k + d for m_ in (1024, 4096, 8192, 65536) for k in range(1, len(data) // m_ + 1) for d in (-1, 0, 1)]
+            cuts = sorted(set([0, len(data)] + [i + 1 for i in nl] + [i for i in nl] + [x for x in marks if 0 <= x <= len(data)] +
+                              [crng.randrange(len(data) + 1) for _ in range(512)]))
+            bump('probe_long_stream_cuts_sampled')
         else:
             cuts = sorted(set([0, len(data)] + [i + 1 for i in nl] + [i for i in nl] +
                               [crng.randrange(len(data) + 1) for _ in range(64)]))
         nreads = len(paces)
         if sc.get('interrupts') is not None:
             ints = list(sc['interrupts'])
-        elif cfg['all_cuts']:
+        elif cfg['all_cuts'] and len(data) <= 3000:
             ints = list(range(nreads))
         else:
             ints = sorted(set(crng.randrange(nreads) for _ in range(24)) | {0, nreads - 1})
+        if sc.get('cuts') is None and sc.get('interrupts') is None:
+            # bound the work of one evaluation: every cut / interrupt is a full run of nreads raw reads
+            room = max(48, 1500000 // max(1, nreads))
+            if len(cuts) + len(ints) > room:
+                keep_c = max(32, room * 2 // 3)
+                keep_i = max(16, room - keep_c)
+                must = {0, len(data)} | {x for x in cuts if any(abs(x - m_) <= 1 for m_ in (4096, 8192, 65536))}
+                rest = [x for x in cuts if x not in must]
+                crng.shuffle(rest)
+                cuts = sorted(must | set(rest[:max(0, keep_c - len(must))]))
+                if len(ints) > keep_i:
+                    pool = [x for x in ints if x not in (0, nreads - 1)]
+                    crng.shuffle(pool)
+                    ints = sorted(set(pool[:keep_i]) | {0, nreads - 1})
+                bump('probe_cuts_subsampled_for_work_bound')
         for b in cuts:
             if b > len(data):
                 continue
